@@ -105,10 +105,12 @@ def build_contracts(loader, h, extra_no=()):
     """qualname -> callable(E, fn, args, kwargs) substituting the spec function"""
     table = {}
     uses = h.uses
-    for qn, fn in api.CONTRACTS.items():
+    allc = dict(api.CONTRACTS)
+    allc.update(h.overrides)
+    for qn, fn in allc.items():
         if qn in h.body_of or qn in extra_no:
             continue
-        if uses != "default" and qn not in uses:
+        if uses != "default" and qn not in uses and qn not in h.overrides:
             continue
         mod = loader.load(fn.__module__)
         spec_fv = mod.globals[fn.__name__]
